@@ -156,6 +156,15 @@ def decide(pid, tier, seed):
     if quarantined:
         notes.append("functions taken out because Verus cannot read their bodies (unsupported construct): " + ", ".join(quarantined))
         # (properties tagged on a quarantined function are decided by the witness step below, or stay undecided)
+    # a caller of a function that has no contract cannot be blamed for what it can no longer prove
+    unc = [u.split("::")[-1] for u in g["splice"].get("uncontracted", [])]
+    if unc:
+        notes.append("functions of /repo without a contract (emitted external_body, no specification): " + ", ".join(g["splice"]["uncontracted"]))
+        pat = re.compile(r"\b(" + "|".join(re.escape(u) for u in unc) + r")\s*(::<[^>]*>)?\(")
+        for x in fails:
+            f = [f for f in gi.funcs if f["name"] == x["function"]]
+            if f and pat.search(f[0]["text"]):
+                x["specific"] = False
     if r["summary"] is None:
         raise P.Undecided("verus produced no summary: " + " ".join(r["stderr_other"][-5:]))
     if tools:
